@@ -59,7 +59,11 @@ class Patterns(Monitor):
                             self.flag('dangling-parent-at-commit', ('uic', v.batches[b]['user'], j['inst_coll']))
                     # (the staged ready counts that the commit adds blindly are non-zero only for a batch's first update: jobs of later
                     # updates are inserted Pending and are accounted by the trigger, which does look at cancellation)
-                    if j['update_id'] == 1 and v.group_cancelled(b, j['job_group_id']) and not any(
+                    via_route = (b, j['update_id']) in getattr(getattr(self.r, 'fz', None), 'commits_via_route', ())
+                    root_cancelled = (b, 0) in v.cancelled
+                    # (the commit route itself refuses to commit an update of a batch whose root group is cancelled: a commit that
+                    #  went through the route on such a batch is not the recorded history and is not explained)
+                    if j['update_id'] == 1 and v.group_cancelled(b, j['job_group_id']) and not (via_route and root_cancelled) and not any(
                         self.cancelled_while_uncommitted.get((b, a)) for a in v.ancestors.get((b, j['job_group_id']), ()) if (b, a) in v.cancelled
                     ):
                         self.commit_after_cancel.add((b, j['update_id']))
